@@ -168,6 +168,13 @@ def work_list(ctx):
         E("dict", progs)
     for progs in ([[5], [5], [5]], [[5], [5], [7]], [[5], [7], [9]]):    # 3 threads x 1 cycle
         E("dict", progs)
+    # ---- the composition the server uses: Storage.acquire_lock + Collection._acquire_cache_lock (monitor only)
+    ccap = ctx.n(250, 20000)
+    for progs in ([[("r", "/u/c/", "")], [("r", "/u/c/", "")]], [[("r", "/u/c/", "")], [("w", "/u/c/", "")]],
+                  [[("w", "/u/c/", "")], [("w", "/u/c/", "")]], [[("r", "/u/c/", "")], [("r", "/u/d/", "")]],
+                  [[("r", "/u/c/", "x")], [("r", "/u/c/", "")], [("r", "/u/c/", "x")]],
+                  [[("r", "/u/c/", ""), ("w", "/u/c/", "")], [("r", "/u/c/", "")]]):
+        W.append(("enum", "comp", progs, (ccap, ctx.n(120, 3000), ctx.rng.randrange(10 ** 9))))
     # ---- larger configurations: seeded random schedules
     rng = ctx.rng
     big = []
@@ -355,7 +362,7 @@ def run(ctx):
     # ---------------------------------------------------------------- enumerate / sample schedules on the real classes
     W = work_list(ctx)
     ctx.log("scheduling %d tasks" % len(W))
-    per_kind = {"cond": [], "file": [], "dict": []}
+    per_kind = {"cond": [], "file": [], "dict": [], "comp": []}
     first_violation = None
     steps = 0
     with concurrent.futures.ProcessPoolExecutor(max_workers=16) as ex:
@@ -370,11 +377,12 @@ def run(ctx):
             for sched, trace, cont in cases:
                 ctx.case((kind, repr(progs), tuple(sched)), nontrivial=cont,
                          sample=dict(lock=kind, programs=progs, schedule=sched) if len(ctx.samples) < 6 and cont and len(sched) > 12 else None)
-                per_kind[kind].append(((progs, sched), trace))
+                if kind != "comp":        # the composition is monitored only; the three classes are compared with the model
+                    per_kind[kind].append(((progs, sched), trace))
             if violation is not None and first_violation is None:
                 first_violation = violation
     ctx.extra["scheduler_steps_on_real_classes"] = steps
-    ctx.traces_validated = sum(len(v) for v in per_kind.values())
+    ctx.traces_validated = sum(len(v) for k, v in per_kind.items() if k != "comp")
     ctx.log("ran %d schedules (%d steps) on the real classes" % (ctx.traces_validated, steps))
     if first_violation is not None:
         v = first_violation
@@ -427,7 +435,7 @@ def replay(ctx, path):
     progs = rp["programs"]
     if kind == "file":
         progs = [(p, [tuple(c) for c in prog]) for p, prog in progs]
-    elif kind == "cond":
+    elif kind in ("cond", "comp"):
         progs = [[tuple(c) for c in prog] for prog in progs]
     r = X.run_schedule(kind, progs, rp["schedule"], monitor=True, extend=False)
     for i, o in enumerate(r["trace"]):
